@@ -267,6 +267,22 @@ def acceptString (dd : DefDict) (root : List Node) : DefDict × List Issue :=
     | some dt => let r := accept fold acc.1 dt ks; (r.1, acc.2 ++ r.2)
     | none => acc) (dd, [])
 
+/-! ### Merging dictionaries (`DefinitionDict([d1, d2, …])`, `DefValidator(def_dicts)`, `add_definitions(dict)`)
+
+`_add_definitions_from_dict` feeds every `(key, entry)` of the other dictionary to `_add_definition`: a key that
+is already present is reported (one DUPLICATE_DEFINITION issue in `dd.issues`) and ignored — the first entry
+stays.  (The issue side agrees with `SidecarV.mergeIssues`: one issue per later name the dictionary already has.) -/
+
+/-- `_add_definition(key, entry)` -/
+def addEntry (acc : DefDict × List Issue) (e : Entry) : DefDict × List Issue :=
+  if (lookup acc.1 e.key).isSome then (acc.1, acc.2 ++ [Issue.duplicateDefinition]) else (acc.1 ++ [e], acc.2)
+
+/-- `_add_definitions_from_dict(d)` -/
+def mergeDict (acc : DefDict × List Issue) (d : DefDict) : DefDict × List Issue := d.foldl addEntry acc
+
+/-- `DefinitionDict([d1, d2, …])` -/
+def mergeDicts (ds : List DefDict) : DefDict × List Issue := ds.foldl mergeDict ([], [])
+
 /-! ### Expansion (`DefinitionEntry.get_definition`) -/
 
 def replaceHash (v : Str) (s : Str) : Str := s.flatMap (fun c => if c == '#' then v else [c])
